@@ -21,6 +21,9 @@ RULES = {
     "C05-A1": "the stored default is handed out for an absent key only if it cannot be mutable (elemsize == 1) or through a copy",
     "C05-A2": "the sparse storage keeps a fresh object per entry: a vector written into the dictionary never shares storage with the "
               "value the caller passed (nor, through it, with another entry)",
+    "C05-D1": "the default of each attribute type is the zero / empty value of that type (vector defaults repeat it elemsize times); "
+              "default_value is computed from (type, elemsize) when none was given",
+    "C05-R1": "the dense read returns the scalar `_data[key, 0]` exactly when elemsize == 1 and the whole row otherwise; __len__ is n_elem / number of stored keys",
     "C05-S1": "sparse and dense __setitem__ have the same ordered (guard, exception) list and store the same values, bounds check apart",
     "C05-T1": "castable pairs are exactly reflexive + {(Bool,Int),(Bool,Float),(Int,Float)}",
     "C05-C1": "_expand adds n rows and n to n_elem; clear keeps (n_elem, elemsize); dense creation is sized by the container",
@@ -35,6 +38,8 @@ def run(ctx):
     s1_siblings(ctx)
     t1_cast_table(ctx)
     c1_expand_clear(ctx)
+    d1_defaults(ctx)
+    r1_dense_read(ctx)
 
 
 # ---------------------------------------------------------------------------- O1
@@ -424,3 +429,87 @@ def a2_stored_value_fresh(ctx):
                       "then updating one entry in place changes the other; the dense storage copies, so sparse and dense disagree",
                       note="stored vector rebuilt from a list of scalars")
     ctx.check(n >= 1, "C05-A2", site, "sparse __setitem__ no longer has a vector branch storing into self._data", "")
+
+
+# ---------------------------------------------------------------------------- D1
+def d1_defaults(ctx):
+    repo = ctx.repo
+    fn = repo.func(MA, "_BaseAttribute.Type.default_value")
+    site = ctx.site(MA, fn)
+    n = au.params(fn, skip_self=True)[0]
+    want = {"Bool": False, "Int": 0, "Float": 0.0, "Complex": 0j, "String": ""}
+    got = {}
+    scalar_branch = None
+    for st in fn.body:
+        if isinstance(st, ast.If) and isinstance(st.test, ast.Compare) and au.src(st.test.left) == n and au.const(st.test.comparators[0]) == 1 \
+                and isinstance(st.test.ops[0], ast.Eq):
+            scalar_branch = st
+    if scalar_branch is None:
+        ctx.fail("C05-D1", site, "default_value no longer separates the scalar case n == 1", "")
+        return
+    for st in scalar_branch.body:
+        if isinstance(st, ast.If) and isinstance(st.test, ast.Compare) and isinstance(st.test.ops[0], ast.Eq) and len(st.body) == 1 \
+                and isinstance(st.body[0], ast.Return):
+            tname = au.src(st.test.comparators[0]).split(".")[-1]
+            v = st.body[0].value
+            val = None
+            if isinstance(v, ast.Constant):
+                val = v.value
+            elif isinstance(v, ast.Call) and isinstance(v.func, ast.Name) and v.func.id in ("int", "float", "complex", "bool", "str"):
+                args = [au.const(a) for a in v.args]
+                if None not in args:
+                    val = {"int": int, "float": float, "complex": complex, "bool": bool, "str": str}[v.func.id](*args)
+            got[tname] = val
+    ok = set(got) == set(want) and all(type(got[k]) is type(want[k]) and got[k] == want[k] for k in want)
+    ctx.check(ok, "C05-D1", site, f"scalar defaults per type are {got}", f"expected the zero / empty value of each type: {want}", note="5 type defaults")
+    rets = [st for st in fn.body if isinstance(st, ast.Return)]
+    okv = bool(rets) and isinstance(rets[-1].value, ast.Call) and au.call_tail(rets[-1].value) == "Vec" and rets[-1].value.args \
+        and au.src(rets[-1].value.args[0]).replace(" ", "") == f"[self.default_value(1)]*{n}"
+    ctx.check(okv, "C05-D1", site, "vector default is not the scalar default repeated n times", "", note="vector default = n copies")
+    fn = repo.func(MA, "_BaseAttribute.default_value")
+    ok = False
+    for st in fn.body:
+        if isinstance(st, ast.If) and au.src(st.test) == "self._default_value is None":
+            ok = any(isinstance(s_, ast.Assign) and au.is_self_attr(s_.targets[0], "_default_value")
+                     and au.src(s_.value) == "self.type.default_value(self.elemsize)" for s_ in st.body)
+    r = [st for st in fn.body if isinstance(st, ast.Return)]
+    ok = ok and bool(r) and au.src(r[-1].value) == "self._default_value"
+    ctx.check(ok, "C05-D1", ctx.site(MA, fn), "default_value property is not `the given default, else type.default_value(elemsize)`", "",
+              note="default from (type, elemsize)")
+
+
+# ---------------------------------------------------------------------------- R1
+def r1_dense_read(ctx):
+    repo = ctx.repo
+    fn = repo.func(MA, "ArrayAttribute.__getitem__")
+    site = ctx.site(MA, fn)
+    key = au.params(fn, skip_self=True)[0]
+    rets = [st for st in fn.body if isinstance(st, ast.Return)]
+    ok = False
+    if len(rets) == 1:
+        v = rets[0].value
+        cases = None
+        if isinstance(v, ast.IfExp):
+            cases = (v.test, v.body, v.orelse)
+        if cases:
+            t, a, b = cases
+            try:
+                pred = order.Pred(lambda node: "e" if au.is_self_attr(node, "elemsize") else (_ for _ in ()).throw(order.Unsupported("x")))
+                truth = [bool(pred.eval(t, {"e": e})) for e in (1, 2, 3, 4)]   # elemsize is a positive count
+            except order.Unsupported:
+                truth = None
+            w_eq = True
+            if truth == [True, False, False, False]:
+                w_eq = None
+            elif truth == [False, True, True, True]:
+                a, b = b, a
+                w_eq = None
+            scalar = au.src(a).replace(" ", "") == f"self._data[{key},0]"
+            row = au.src(b).replace(" ", "") in (f"self._data[{key},:]", f"self._data[{key}]")
+            ok = w_eq is None and scalar and row
+    ctx.check(ok, "C05-R1", site, "dense __getitem__ is not `_data[key, 0] if elemsize == 1 else _data[key, :]`",
+              "a scalar attribute must read back the scalar that was written, a vector attribute the whole vector - like the sparse storage",
+              note="scalar iff elemsize == 1")
+    fn = repo.func(MA, "ArrayAttribute.__len__")
+    r = [st for st in fn.body if isinstance(st, ast.Return)]
+    ctx.check(bool(r) and au.src(r[0].value) == "self.n_elem", "C05-R1", ctx.site(MA, fn), "len(dense attribute) is not n_elem", "")
